@@ -32,7 +32,7 @@ impl Prop for C14P {
             Tier::Thorough => vec![(n, n), (2, n), (n, 2), (6, 3)],
         };
         let mut v = Vec::new();
-        for r in receivers(n, true, false, &parents) {
+        for r in receivers(n, true, super::recv::Nest::No, &parents) {
             v.push(format!("{} from", r.enc()));
             v.push(format!("{} within", r.enc()));
         }
